@@ -443,7 +443,7 @@ pub fn run(ctx: &mut Ctx) {
             "title: Café", "note: é", "x: 😀😀", "k: 漢字 ok", "prep time: 1 h", "cook time: 5 min", "time: 2 h", "servings: a|b", "locale: zz_",
             "tags: [a, a]", "author: <x>", "time: x", "\"servings\": 2|2", "source: {a: 1}",
         ];
-        let maxlen = if ctx.is_thorough() { 4 } else { 3 };
+        let maxlen = if ctx.is_thorough() { 5 } else { 4 };
         let total = alphabet::count_upto(FM_LINES.len(), maxlen);
         let mut idx = ctx.shard as u64;
         let mut lines = String::new();
